@@ -96,16 +96,34 @@ pub fn ctx() -> Context {
 }
 
 /// Context with BASE_SETTINGS overlaid by each JSON document in `extra`.
+/// `Context::with_settings` REPLACES the settings, so the documents are deep-merged first
+/// (objects merged recursively, everything else replaced) and applied in one call.
 pub fn ctx_with(extra: &[&str]) -> Context {
-    let mut c = Context::new()
-        .with_settings(BASE_SETTINGS)
-        .unwrap_or_else(|e| crate::ev::machinery(format!("base settings rejected: {e:?}")));
-    for e in extra {
-        c = c
-            .with_settings(*e)
-            .unwrap_or_else(|er| crate::ev::machinery(format!("settings {e} rejected: {er:?}")));
+    let merged = merged_settings(extra);
+    Context::new()
+        .with_settings(merged.as_str())
+        .unwrap_or_else(|e| crate::ev::machinery(format!("settings {merged} rejected: {e:?}")))
+}
+
+/// BASE_SETTINGS deep-merged with each JSON document of `extra`, as a JSON string.
+pub fn merged_settings(extra: &[&str]) -> String {
+    fn merge(a: &mut serde_json::Value, b: serde_json::Value) {
+        match (a, b) {
+            (serde_json::Value::Object(a), serde_json::Value::Object(b)) => {
+                for (k, v) in b {
+                    merge(a.entry(k).or_insert(serde_json::Value::Null), v);
+                }
+            }
+            (a, b) => *a = b,
+        }
     }
-    c
+    let mut v: serde_json::Value = serde_json::from_str(BASE_SETTINGS).unwrap();
+    for e in extra {
+        let x: serde_json::Value = serde_json::from_str(e)
+            .unwrap_or_else(|er| crate::ev::machinery(format!("settings {e} is not JSON: {er}")));
+        merge(&mut v, x);
+    }
+    v.to_string()
 }
 
 pub fn builder(ctx: Context, definition: &str) -> Builder {
